@@ -104,7 +104,7 @@ TLC_STATS = re.compile(r"(\d+) states generated, (\d+) distinct states found, (\
 
 
 def tlc_cached(name, module, cfg, workers=12, timeout=3600, simulate=None, tlc_seed=None, keep=("REPLAY",),
-               javaopts=None, extra_env=None, extra_args=None, extra_files=None):
+               javaopts=None, extra_env=None, extra_args=None, extra_files=None, expect_violation=None):
     """Runs TLC on spec/<module>.tla with spec/<cfg> and caches its stdout (gz) keyed by the
     content of every spec file + cfg + mode (+ the content of extra input files).  Returns (path, stats)."""
     cfgp = os.path.join(SPEC, cfg)
@@ -163,6 +163,9 @@ def tlc_cached(name, module, cfg, workers=12, timeout=3600, simulate=None, tlc_s
     if simulate:
         # a simulation run ends by its num= bound (rc 0) or by timeout
         ok = rc in (0,) and "Error:" not in text
+    if expect_violation:
+        # a demonstration model (code as found before a repair): TLC must find the violation
+        ok = f"Invariant {expect_violation} is violated" in text
     if not ok:
         os.remove(tmp)
         raise ToolError(f"TLC run {name} failed (rc={rc}):\n{text[-3000:]}")
